@@ -16,7 +16,8 @@ func TestC09(t *testing.T) {
 	mix[core.OpRegister] = 3
 	mix[core.OpUnregister] = 1
 	mix[core.OpReset] = 1
-	mix[core.OpCacheIll] = 2 // (a call through an unregistered filter must not leave a lock behind)
+	mix[core.OpCacheIll] = 5 // (a call through an unregistered filter must not leave a lock behind)
+	mix[core.OpUnregister] = 3
 	mix[core.OpQuery] = 4
 	mix["useRegistered"] = 30
 	runSimProp(t, &simProp{
